@@ -445,13 +445,20 @@ static struct precalc_s {
 	 * we operate on clean seconds and attribute leap seconds only
 	 * to the S slot, so 59 seconds plus a leap second != 1 minute */
 	with (int64_t S = __strf_tot_secs(dur), d = __strf_tot_days(dur)) {
+		const long int c = __strf_tot_corr(dur);
+		int64_t whole;
+
 		us = d * (int)SECS_PER_DAY + S;
-		res.neg = dur.neg || us < 0;
+		/* the sign is that of the duration as a whole, the clean
+		 * seconds are short of the correction once, the real seconds
+		 * will have it on top once more; within a leap second the
+		 * clean seconds alone point the other way */
+		whole = us + 2 * c;
+		res.neg = dur.neg || whole < 0;
 		/* we print magnitudes, so the correction loses its sign along
 		 * with the seconds it corrects */
-		res.corr = us >= 0
-			? __strf_tot_corr(dur) : -__strf_tot_corr(dur);
-		us = us >= 0 ? us : -us;
+		res.corr = whole >= 0 ? c : -c;
+		us = whole >= 0 ? us : -us;
 	}
 
 	if (f.has_week) {
